@@ -4,7 +4,7 @@
 seeds=$1; shift
 for s in $seeds; do
   for id in "$@"; do
-    ( VERIF_SEED=$s python3 check.py $id --tier quick > /tmp/stress_${id}_$s.log 2>&1; rc=$?; if [ $rc -ne 0 ]; then echo "ALARM $id seed=$s rc=$rc: $(grep -m1 'violation:\|INFRA' /tmp/stress_${id}_$s.log | cut -c1-220)"; fi ) &
+    ( VF_DEV_EVIDENCE=1 VERIF_SEED=$s python3 check.py $id --tier quick > /tmp/stress_${id}_$s.log 2>&1; rc=$?; if [ $rc -ne 0 ]; then echo "ALARM $id seed=$s rc=$rc: $(grep -m1 'violation:\|INFRA' /tmp/stress_${id}_$s.log | cut -c1-220)"; fi ) &
     while [ $(jobs -r | wc -l) -ge 4 ]; do sleep 0.5; done
   done
 done
